@@ -100,6 +100,17 @@ chk("C16", "model_checking",
     "complete enumeration of small programs against a union-find type unifier, plus permutation/renaming metamorphosis and deviation-bounded map-order exploration",
     "DESIGN.md §5 C16")
 
+chk("C12", "model_checking",
+    "25 I/O forms (print >, >>, printf >, print |, cmd | getline [v], system, getline [v] < file incl. missing files, operand files incl. plain getline reaching an operand, close+reopen sequences, /dev/stdout, /dev/stderr, -) x 5 ways of computing the name (constant, concatenation, input field, ARGV, user function); every sequence of <=2 forms (thorough: also all 3-step sequences with constant names) x the 8 flag combinations x Config.OpenFile {nil, recording wrapper}, run on the real interpreter with recorded effects: every process start (os/exec shim), every raw os file call made by package interp (redirected through recording wrappers), wrapper calls, directory contents before/after; allowed effects are a function of the flags, a denied attempt must end the run with an error and nothing after it may run, stdin and - stay available, with a wrapper configured there are no raw opens; an alphabet-gap guard lists every syntactic os/exec site of package interp and reports sites never executed.",
+    "interp reaches the file system and processes only through the redirected os functions and os/exec (other mechanisms such as syscall are outside the hook); real /bin/sh children with echo/read only.",
+    "complete enumeration of I/O form sequences x flag configurations on the real interpreter with recorded effects",
+    "DESIGN.md §5 C12")
+chk("C18", "model_checking",
+    "Every statement tree with <=2 (thorough 3) statements over {print, exit, next, return, call, break, continue, if, if/else, while, do, for, for-in, block} incl. empty bodies in every rule context (BEGIN, action, pattern action, END, function + caller, pattern-only), pairs of rules, and function bodies of 3 (thorough 4) statements x 2 inputs x {set, count} x {one -f file, two -f files split at every line boundary, also inside a block} x append on/off sequences: output and exit status with -coverprofile equal those without; every profile line parsed: block inside its named file, start before end, blocks partition the statements (sum of numStmts = statement count), count = the reference evaluator's count of how often the block's first statement began executing, set = (count>0), append = previous profile + new lines. Every 40th (thorough 10th) program is observed on the real CLI binary, the others run the same steps as goawk.go in-process.",
+    "Reference evaluator's per-statement execution counts (refawk) as the count oracle; process start costs 10-30 ms here, hence the in-process bulk with a CLI stride.",
+    "complete enumeration of statement trees x file splits x modes, differential against the uninstrumented run and a reference evaluator's counts",
+    "DESIGN.md §5 C18")
+
 NOT_YET = "check not built yet in this round (work in progress; see DESIGN.md §5 for the planned exploration)"
 ALL = ["C%02d" % i for i in range(1, 21)]
 
